@@ -38,6 +38,16 @@ def opNextRegular : Op := fun j => do
   let lo ← fNat j "lo"; let hi ← fNat j "hi"
   pure (Json.arr (((List.range (hi + 1 - lo)).map fun i => outNat (nextRegular (lo + i))).toArray))
 
-def ops : OpTable := [("c19.hln", opHln), ("c19.spec", opSpec), ("c19.ci", opCi), ("c19.acovf", opAcovf), ("c19.next_regular", opNextRegular)]
+/-- the HG statistic GIVEN the fitted parameters (Spec): σ (exact), ρ = exp(−3/θ) (computed by the harness, exact as passed),
+    optional `lags` (default: the length of the cleaned series = all lags) -/
+def opHg : Op := fun j => do
+  let xs ← fFlList j "series"; let sg ← fRat j "sigma"; let rho ← fRat j "rho"
+  let d := clean xs
+  pure <| outObj [("mean", outRat (SV.Spec.DM.mean d)), ("len", outNat d.length),
+    ("density", outRat (SV.Spec.DM.hgDensity (sg * sg) rho d.length)),
+    ("stat_sq", outRat (SV.Spec.DM.hgStatSq d (sg * sg) rho))]
+
+def ops : OpTable := [("c19.hln", opHln), ("c19.spec", opSpec), ("c19.ci", opCi), ("c19.acovf", opAcovf), ("c19.next_regular", opNextRegular),
+  ("c19.hg", opHg)]
 
 end SV.Driver.C19
